@@ -1,1 +1,2 @@
 import MtailVerif.Props.C08
+import MtailVerif.Props.C15
